@@ -66,10 +66,11 @@ func replay(c *rt.Ctx, raw json.RawMessage) {
 			return
 		}
 		fmt.Printf("patterns %q scope=%s schema=%q\nreference excludes: %v (gone incl. descendants %d of %d, no-demand %d) err=%q\n", cs.Pats, cs.Scope, cs.Schema, res.Excluded, res.Gone, res.Total, res.Either, res.Err)
-		if res.Why != "" {
-			c.Violation(res.Key, res.Why, cs, nil)
-			fmt.Println("VIOLATED:", res.Why)
-		} else {
+		for _, v := range res.All {
+			c.Violation(v.Key, v.Why, cs, nil)
+			fmt.Println("VIOLATED:", v.Why)
+		}
+		if len(res.All) == 0 {
 			fmt.Println("held")
 		}
 	case "skip":
@@ -141,8 +142,10 @@ func countExcl(c *rt.Ctx, cs ExclCase, res exclResult) {
 func recordExcl(c *rt.Ctx, cs ExclCase, res exclResult) {
 	countExcl(c, cs, res)
 	c.Eval(rt.Digest(cs.Scope, cs.Schema, cs.Pats, res.Excluded, res.Err), len(res.Excluded) > 0 && res.Gone < res.Total)
-	if res.Why != "" {
-		c.Violation(res.Key, res.Why, cs, map[string]any{"reference_excluded": res.Excluded, "error": res.Err})
+	for _, v := range res.All {
+		c.Violation(v.Key, v.Why, cs, map[string]any{"reference_excluded": res.Excluded, "error": res.Err})
+	}
+	if len(res.All) > 0 {
 		return
 	}
 	if c.WantSample() && len(res.Excluded) > 1 && len(cs.Pats) > 1 && res.Gone < res.Total/2 {
